@@ -54,6 +54,28 @@ def input_role(m, call, helper, pname):
     return None
 
 
+def leaf_defs(h, v, depth=0, seen=None):
+    """definitions (lhs, rhs, stmt) of local v, following plain copies  v = w  to the definitions of w (an insertion position
+    computed in a helper's local and handed back through an out-parameter is still `k + 1` / 0 / the counter)"""
+    seen = seen if seen is not None else set()
+    if v in seen or depth > 3:
+        return []
+    seen = seen | {v}
+    out = []
+    for lhs2, rhs2, st2 in h.assignments():
+        if (lhs2["name"] if isinstance(lhs2, dict) else render(lhs2)) != v:
+            continue
+        r = rhs2.strip()
+        stepped = r.k == "DeclRefExpr" and any(k2 in ("++", "op=") and render(l3) == render(r) for l3, r3, s3, k2 in query.stores(h))
+        if r.k == "DeclRefExpr" and r.j.get("dk") == "local" and r.j.get("name") != v and not stepped:
+            sub = leaf_defs(h, r.j["name"], depth + 1, seen)
+            if sub:
+                out += sub
+                continue
+        out.append((lhs2, rhs2, st2))
+    return out
+
+
 def run(prog, ctx):
     m, helpers = helpers_of_merge(prog)
     ctx.touch(m)
@@ -161,6 +183,8 @@ def run(prog, ctx):
         inc_in_idx = any(x.k == "UnaryOperator" and x.j.get("op") == "++" for x in idx.walk())
         body = inner.child("body")
         inc_after = [x for x in body.walk() if x.k == "UnaryOperator" and x.j.get("op") == "++" and render(x.children[0]) in names] if body is not None else []
+        if inner.k == "ForStmt" and inner.child("inc") is not None:
+            inc_after += [x for x in inner.child("inc").walk() if x.k == "UnaryOperator" and x.j.get("op") == "++" and render(x.children[0]) in names]
         sh = loops.for_shape(inner) if inner.k == "ForStmt" else None
         uses_loop_var = sh is not None and sh.var in names
         insert_ok = False
@@ -171,7 +195,7 @@ def run(prog, ctx):
             if len(counters) == 1 and cfg.node_dominates(st, counters[0]):
                 C = render(counters[0].children[0])
                 v = idx.strip().j["name"]
-                defs = [rhs2 for lhs2, rhs2, st2 in h.assignments() if (lhs2["name"] if isinstance(lhs2, dict) else render(lhs2)) == v]
+                defs = [rhs2 for lhs2, rhs2, st2 in leaf_defs(h, v)]
                 good = bool(defs)
                 cdefs = [render(rhs2) for lhs2, rhs2, st2 in h.assignments() if (lhs2["name"] if isinstance(lhs2, dict) else render(lhs2)) == C]
 
@@ -185,10 +209,14 @@ def run(prog, ctx):
                         continue
                     if dd.k == "ConditionalOperator" and all(le_counter(x) for x in (dd.child("then"), dd.child("else"))):
                         continue
-                    mm2 = re.match(r"^(\w+)(?: \+ 1)?$", t)
+                    mm2 = re.match(r"^([\w$.]+)(?: \+ 1)?$", t)
                     if mm2:
-                        lv = [lp2 for lp2 in h.walk() if lp2.k == "ForStmt" and loops.for_shape(lp2).ok and loops.for_shape(lp2).var == mm2.group(1)
-                              and loops.for_shape(lp2).cmp == "<" and loops.for_shape(lp2).bound == C]
+                        lv = []
+                        for lp2 in h.walk():
+                            if lp2.k in ("ForStmt", "WhileStmt"):
+                                sh2 = loops.index_shape(lp2)
+                                if sh2.ok and sh2.var == mm2.group(1) and sh2.cmp == "<" and sh2.bound == C:
+                                    lv.append(lp2)
                         if lv:
                             continue
                     good = False
@@ -269,7 +297,7 @@ def run(prog, ctx):
             continue
         bad = None
         for (bb, ii, s2) in eq_edges:
-            wp = cfg.feasible_reach(cfg.block_of(st), lambda lit, b3, i3: cfg.blocks[b3].succs[i3] == hb, lambda a2: re.match(r"^\w+$", a2) is not None, start=s2)
+            wp = cfg.feasible_reach(cfg.block_of(st), lambda lit, b3, i3: cfg.blocks[b3].succs[i3] == hb, lambda a2: re.match(r"^[\w$.]+$", a2) is not None, start=s2)
             if wp is not None:
                 bad = (bb, wp)
         if bad:
@@ -283,13 +311,13 @@ def run(prog, ctx):
     # ---- M8 the duplicate/position scan looks at the whole result ------------------------------------------------
     for h, st, l, inner in charges.get("override", []):
         cfg = h.cfg
-        scans = [x for x in inner.child("body").walk() if x.k == "ForStmt" and any(
+        scans = [x for x in inner.child("body").walk() if x.k in ("ForStmt", "WhileStmt") and any(
             c2.k == "CallExpr" and c2.j.get("callee") == "strcmp" and all(".key" in render(a2) for a2 in c2.call_args()) for c2 in x.walk())]
         if len(scans) != 1:
             ctx.inconclusive("M8", "%s: the scan for an existing key covers the whole result" % h.name, st.where, "%d scan loops" % len(scans))
             continue
         sc = scans[0]
-        sh2 = loops.for_shape(sc)
+        sh2 = loops.index_shape(sc)
         counters = [x for x in inner.child("body").walk() if x.k == "UnaryOperator" and x.j.get("op") == "++" and not x.within(sc)]
         C = render(counters[0].children[0]) if counters else None
         early = [x for x in sc.child("body").walk() if x.k in ("BreakStmt", "GotoStmt", "ReturnStmt")]
@@ -300,6 +328,20 @@ def run(prog, ctx):
                                           and lit.node.j.get("callee") == "strcmp" and all(".key" in render(a2) for a2 in lit.node.call_args()), start=cfg.loop_header(sc))
             if not (okx and cutx):
                 bad_exit = x
+        # a flag in the loop condition is an early exit too: it may only be switched off where the key itself was found
+        for ex in getattr(sh2, "extra", []) or []:
+            fl = ex
+            while fl.k == "UnaryOperator" and fl.j.get("op") == "!":
+                fl = fl.children[0].strip()
+            if fl.k != "DeclRefExpr":
+                bad_exit = bad_exit or ex
+                continue
+            for lhs3, rhs3, st3, kind3 in query.stores(h):
+                if render(lhs3) == render(fl) and st3.within(sc):
+                    okx, cutx = cfg.all_paths_cut(cfg.block_of(st3), lambda lit, b3, i3: lit is not None and lit.kind == "truth" and not lit.pol and lit.node.k == "CallExpr"
+                                                  and lit.node.j.get("callee") == "strcmp" and all(".key" in render(a2) for a2 in lit.node.call_args()), start=cfg.loop_header(sc))
+                    if not (okx and cutx):
+                        bad_exit = st3
         if not (loops.covers_range(sh2, 0, C)):
             ctx.fail("M8", "%s: the scan for an existing key covers the whole result" % h.name, sc.where, "scan loop is %s, result length is %s" % (sh2.describe(), C),
                      key="scan-range:%s" % h.name)
@@ -313,7 +355,7 @@ def run(prog, ctx):
         idxv = l.children[1].strip()
         if idxv.k == "DeclRefExpr":
             v = idxv.j["name"]
-            defs = [(lhs2, rhs2, st2) for lhs2, rhs2, st2 in h.assignments() if (lhs2["name"] if isinstance(lhs2, dict) else render(lhs2)) == v]
+            defs = leaf_defs(h, v)
             front = False
             for lhs2, rhs2, st2 in defs:
                 r2 = rhs2.strip()
@@ -361,12 +403,10 @@ def run(prog, ctx):
                     scanvars.add(sh3.var)
         inst11 = "%s: an entry only the override has goes behind the last entry of its section" % h.name
         verdict = []
-        for lhs2, rhs2, st2 in h.assignments():
-            if (lhs2["name"] if isinstance(lhs2, dict) else render(lhs2)) != v:
-                continue
+        for lhs2, rhs2, st2 in leaf_defs(h, v):
             r2 = rhs2.strip()
             t = render(r2)
-            if isinstance(lhs2, dict) and rhs2.const_value() == 0:
+            if rhs2.const_value() == 0 and (isinstance(lhs2, dict) or st2.k == "DeclStmt"):
                 continue                                         # initial value, overwritten or used for the group-less case (M10)
             mm3 = re.match(r"^([\w$.]+)( \+ 1)?$", t)
             if mm3 and mm3.group(1) in scanvars:
@@ -479,6 +519,16 @@ def run(prog, ctx):
                 for pn6 in h.param_names():
                     if re.search(r"(^|[^\w])%s->" % re.escape(pn6), txt6):
                         roots.add(pn6)
+                # ... or through a local that points into one of the inputs (entry = lookup(ef, ...); entry->value)
+                from sa.dataflow import ReachingDefs as _RD, origins as _origins
+                rd6 = _RD(h)
+                for x in rhs.walk():
+                    if x.k == "DeclRefExpr" and x.j.get("dk") == "local" and (x.j.get("ct") or "").endswith("*"):
+                        for o in _origins(rd6, x, st):
+                            otxt = o[1] if isinstance(o, tuple) and o[0] == "param" else (render(o[1]) if isinstance(o, tuple) and o[0] == "expr" else "")
+                            for pn6 in h.param_names():
+                                if otxt == pn6 or re.search(r"(^|[^\w$.])%s->" % re.escape(pn6), otxt):
+                                    roots.add(pn6)
                 roots = set(r6 for r6 in roots if h.param(r6) is not None and (h.param(r6).get("ct") or "").endswith("econf_file *"))
                 roles = set(input_role(m, call, h, r) for r in roots)
                 ok, why = ma.is_fresh_expr(h, rhs)
